@@ -161,20 +161,21 @@ def lum_all(rep):
         global _LUM_TMP
         _LUM_TMP = tmp
         vlib.pool_map(_lum_chunk, list(range(256)))
-        cfg = "SPECIFICATION Spec\nINVARIANT AllLumOk\nCHECK_DEADLOCK FALSE\n"
+        cfg = "SPECIFICATION Spec\nINVARIANT AllLumOk\nINVARIANT AllVsBlackWhiteOk\nCHECK_DEADLOCK FALSE\n"
         r = vlib.run_tlc("WcagLumAll", cfg, env={"LUM_DIR": tmp}, workers=vlib.NCPU, heap="16g", timeout=3600)
-        if "AllLumOk is violated" in r.stdout or "AllLumOk is violated" in r.error:
+        if "is violated" in r.stdout or "is violated" in r.error:
             # find the offending red level from the counterexample
             import re
             m = re.search(r"r = (\d+)", r.stdout)
-            rep.violation("luminance differs from the WCAG definition", {"red_level": m.group(1) if m else "?",
+            rep.violation("luminance / ratio against black or white differs from the WCAG definition", {"red_level": m.group(1) if m else "?",
                           "tlc": r.stdout[-1500:]})
             rep.states += r.distinct
             rep.transitions += r.generated
         else:
             rep.add_model("WcagLumAll(2^24 luminances observed)", r, "256 states x 65,536 observed luminances each")
-            rep.evaluations += 1 << 24
+            rep.evaluations += 3 * (1 << 24)
             rep.extra["all_luminances_exhaustive"] = True
+            rep.extra["every_colour_against_black_and_white_exhaustive"] = True
     finally:
         shutil.rmtree(tmp, ignore_errors=True)
 
@@ -185,9 +186,13 @@ _LUM_TMP = None
 def _lum_chunk(r):
     vlib.use_repo()
     from cm_colors.core.contrast import calculate_relative_luminance as L
+    from cm_colors.core.contrast import calculate_contrast_ratio as R
     rows = [[fl(L((r, g, b)), 1e8) for b in range(256)] for g in range(256)]
+    # every colour against black and against white (both argument orders alternate by parity)
+    blk = [[fl(R((r, g, b), (0, 0, 0)) if (g + b) & 1 else R((0, 0, 0), (r, g, b)), 1e6) for b in range(256)] for g in range(256)]
+    wht = [[fl(R((r, g, b), (255, 255, 255)) if (g + b) & 1 else R((255, 255, 255), (r, g, b)), 1e6) for b in range(256)] for g in range(256)]
     with open(os.path.join(_LUM_TMP, f"{r}.json"), "w") as f:
-        json.dump(rows, f, separators=(",", ":"))
+        json.dump({"lum": rows, "black": blk, "white": wht}, f, separators=(",", ":"))
     return r
 
 
